@@ -203,7 +203,23 @@ func cmdCheck(args []string) int {
 			if o.Expect == "sat" {
 				to = 3 * time.Second
 			}
-			if o.Expect == "unsat" && !noSlice {
+			if o.Expect == "unsat" && (o.Kind == "frame" || o.Kind == "loop-frame") {
+				// frame obligations are about locations, not about element values: first try
+				// without the integer-quantified assumptions and the spec axioms (weaker context)
+				var sb strings.Builder
+				for _, l := range strings.Split(o.Query, "\n") {
+					if strings.Contains(l, "(forall ((j Int))") || strings.Contains(l, "(forall ((q!") || strings.HasPrefix(l, "(assert (forall ((a!") {
+						continue
+					}
+					sb.WriteString(l + "\n")
+				}
+				r := Solve(sb.String(), smtDir, fmt.Sprintf("f%04d_%s", i, sanitize(o.Name)), 5*time.Second, true)
+				if r.Verdict == "unsat" {
+					r.Solver += "/frame-slice"
+					o.Result = r
+				}
+			}
+			if o.Result.Verdict != "unsat" && o.Expect == "unsat" && !noSlice {
 				if sq, ok := sliceQuery(o.Query); ok && len(sq) < len(o.Query)*3/4 {
 					r := Solve(sq, smtDir, fmt.Sprintf("s%04d_%s", i, sanitize(o.Name)), 3*time.Second, true)
 					if r.Verdict == "unsat" {
